@@ -26,7 +26,7 @@ from ural.lru import url_to_lru, lru_to_url, lru_stems, serialize_lru, unseriali
 
 # ---------------------------------------------------------------------------------------------- grammar
 SCHEMES = ("http", "https")
-USERINFOS = (None, "u", "u:pw", ":pw", "u:", "u:p:w")
+USERINFOS = (None, "u", "u:pw", ":pw", "u:", "u:p:w", "u:p@w")   # a raw '@' inside the password: the LAST '@' ends the userinfo, as the standard parser has it
 HOSTS = ("a.com", "www.a.co.uk", "co.uk", "A.Com", "WWW.B.Co.UK", "x.blogspot.com", "a.frcom", "intranet", "a.com.", "WWW.B.Co.UK.", "www.straße.de", "ελληνικός.gr",
          "localhost", "127.0.0.1", "[::1]", "[2001:4860:0:2001::68]", "[2001:db8::1]", "[fe80::a]")
 HOSTS_THOROUGH = HOSTS + ("b.ck", "xn--bcher-kva.de", "192.168.0.12", "[::ffff:1.2.3.4]", "[FE80::1]", "localhost.a.com")
@@ -209,7 +209,7 @@ def enum_worker(job):
 # ---------------------------------------------------------------------------------------------- random part
 R_SCHEMES = ("http", "https", "ftp")
 R_USERS = ("user", "u.s-er", "a%40b", "x_y", "42", "")
-R_PASSWORDS = (None, None, "pw", "p:w", "p%3Aw", "1234", "s:http", "")
+R_PASSWORDS = (None, None, "pw", "p:w", "p%3Aw", "1234", "s:http", "", "p@w")
 R_LABELS = ("a", "www", "m", "lemonde", "theguardian", "x-y", "xn--bcher-kva", "b2", "API", "Blog", "h", "s", "t", "p")
 R_SUFFIXES = ("com", "fr", "co.uk", "org", "io", "github.io", "blogspot.com", "ck", "b.ck", "frcom", "An", "de", "kawasaki.jp", "xn--p1ai", "COM", "Co.Uk")
 R_SEGS = ("", "", "a", "index.html", "x:y", ":", "@", "a@b", "..", ".", "%7Euser", "a;b=c", "a,b", "~", "s:http", "p:", "h:com",
